@@ -27,4 +27,12 @@ theorem emit_ok :
 /-- everything else about the function (control flow, operators, calls): unchanged since the model was written -/
 theorem body_ok : Extracted.Glob.body = Expected.Glob.body := rfl
 
+/-- the users of glob sets (`glob()` in project_builtins.go and lib/os, `Project.ignored`, `Project.loadPackage`)
+are the functions `globSelect` / `packageLoaded` were written against -/
+theorem users_ok :
+    Extracted.Glob.builtinGlobBody = Expected.Glob.builtinGlobBody ∧
+    Extracted.Glob.osGlobBody = Expected.Glob.osGlobBody ∧
+    Extracted.Glob.ignoredBody = Expected.Glob.ignoredBody ∧
+    Extracted.Glob.loadPackageBody = Expected.Glob.loadPackageBody := ⟨rfl, rfl, rfl, rfl⟩
+
 end Dawn.Ties.Glob
